@@ -26,7 +26,7 @@ def page_lists():
 
 PROJECTS = {
     "kitchen sink": {
-        "src/m.f90": ("module m\n  !! doc\n  implicit none\n  integer :: a\n  namelist /modnml/ a\n  type :: t\n    integer :: c\n  contains\n    procedure :: b\n    final :: fin\n  end type t\n"
+        "src/m.f90": ("module m\n  !! doc\n  implicit none\n  integer :: a\n  namelist /modnml/ a\n  type :: t\n    integer :: c\n  contains\n    procedure :: b\n    generic :: gb => b\n    final :: fin\n  end type t\n  type, extends(t) :: t2\n  end type t2\n"
                       "  interface gen\n    module procedure s\n  end interface gen\n  abstract interface\n    subroutine ai()\n    end subroutine ai\n  end interface\n  enum, bind(c)\n    enumerator :: red\n  end enum\n"
                       "  common /blk/ a\ncontains\n  subroutine s()\n    integer :: loc\n    namelist /procnml/ loc\n  contains\n    subroutine inner()\n    end subroutine inner\n  end subroutine s\n"
                       "  subroutine b(self)\n    class(t) :: self\n  end subroutine b\n  subroutine fin(self)\n    type(t) :: self\n  end subroutine fin\nend module m\n"),
